@@ -4,7 +4,9 @@ proof  : lean/Pyunicorn/Properties/C14.lean (kernel loops = chord / horizontal
          criterion, missing samples, affine invariance, time reversal,
          retarded + advanced = degree, clustering counters; round 2: the matrix
          as state, the float32 kernel under order faithfulness, closeness and
-         boundary-corrected measures under reversal, path lengths = least walks)
+         boundary-corrected measures under reversal, path lengths = least walks;
+         round 3: betweenness-type measures under reversal, float kernel subgraph of the
+         exact graph, order invariance of the horizontal graph, loop bounds from the source)
 tie    : exact correspondence of the Lean model (lean/Pyunicorn/Model/Visibility.lean)
          with the compiled kernels at the kernel boundary and with
          `VisibilityGraph` at the object level, on data whose float32 slope
@@ -777,7 +779,10 @@ def run(ctx):
                 "dynamic range, NaN); object level: VisibilityGraph adjacency, retarded/advanced degree, "
                 "clustering, closeness, boundary-corrected degree/closeness for caller arrays in float64 / "
                 "float32 / int64 / strided / negative-stride form and arrays held by another object, "
-                "multi-step histories on one object, wrappers, silence_level=0; "
+                "multi-step histories on one object, wrappers, silence_level=0; round 3: betweenness-type measures "
+                "(N <= 8), every ordered pair of the 16 own methods on one object, hubs of 130..520 samples, NaN at the "
+                "ends, timings in another float width / integer type than the values, nearly collinear data with exact "
+                "differences (float links subset of exact links), generic float64 data for the horizontal graph; "
                 "distinct = distinct (request); non-trivial = at least 3 samples, not all equal")
     ctx.trusted = common.DEFAULT_TRUSTED + [
         "float32: kernelNR rndF32 (differences and quotient rounded to binary32, RNE, no overflow) is "
@@ -785,7 +790,12 @@ def run(ctx):
         "nvg_float32_eq_exact reduces it to the exact model under `Faithful`, which the Lean driver "
         "decides for the series of the exact correspondence (f32_exact selects them independently)",
         "Network.path_lengths (igraph) is modelled by its specification pathLen (least number of links, "
-        "theorem path_lengths_are_least_walk_lengths); nsi_betweenness-based measures are not modelled"]
+        "theorem path_lengths_are_least_walk_lengths)",
+        "retarded/advanced/trans betweenness: modelled by property C03's model of the kernel _nsi_betweenness; the "
+        "reversal theorems are about the pair-dependency definition betwSpec; kernel model == definition is compared "
+        "on every sampled case (driver), not proved",
+        "nvg_float_subgraph assumes a monotone rounding; rndF32 is not proved monotone (the theorem's conclusion is "
+        "checked on the compiled kernels for data with exact differences)"]
     ctx.proofs()
 
     # ---------------- the series pool ---------------------------------------
